@@ -87,11 +87,17 @@ vars == <<cfg, pc, reqs>>
 \* dependency must not leak into the request for the other.
 Cases ==
        [path : Paths \ {"manager2"}, repo : Repos, variant : Variants, passAll : BOOLEAN, redirect : Redirects,
-        tls : {"none"}, order : {"single"}]
+        tls : {"none"}, order : {"single"}, conf : {"fresh"}]
   \cup [path : Paths \cap {"dl_name", "dl_url", "manager"}, repo : Repos, variant : Variants, passAll : BOOLEAN,
-        redirect : Redirects, tls : TLSKinds \ {"none"}, order : {"single"}]
+        redirect : Redirects, tls : TLSKinds \ {"none"}, order : {"single"}, conf : {"fresh"}]
   \cup [path : Paths \cap {"manager2"}, repo : Repos, variant : Variants, passAll : BOOLEAN, redirect : {FALSE},
-        tls : TLSKinds, order : {"privfirst", "pubfirst"}]
+        tls : TLSKinds, order : {"privfirst", "pubfirst"}, conf : {"fresh"}]
+  \* a history of the repository configuration: the entry was first registered WITH pass-credentials (and a
+  \* CA file), then registered again under the same name and URL as the case says; what counts is the last one
+  \cup [path : Paths \cap {"dl_name", "dl_url", "manager"}, repo : Repos, variant : Variants, passAll : {FALSE},
+        redirect : {FALSE}, tls : {"none"}, order : {"single"}, conf : {"readded"}]
+  \cup [path : Paths \cap {"manager2"}, repo : Repos, variant : Variants, passAll : {FALSE}, redirect : {FALSE},
+        tls : {"none"}, order : {"privfirst", "pubfirst"}, conf : {"readded"}]
 
 Init == /\ cfg \in Cases
         /\ pc = 1
@@ -168,14 +174,15 @@ RepoNo(r) == (IF r.scheme = "https" THEN 1 ELSE 0) + 2 * (IF r.port = 0 THEN 0 E
 TLSNo(t) == CASE t = "none" -> 0 [] t = "ca" -> 1 [] t = "cert" -> 2 [] t = "insecure" -> 3
 OrderNo(o) == CASE o = "single" -> 0 [] o = "privfirst" -> 1 [] o = "pubfirst" -> 2
 CaseNo == ((((((PathNo(cfg.path) * 16 + VarNo(cfg.variant)) * 8 + RepoNo(cfg.repo)) * 2
-            + (IF cfg.passAll THEN 1 ELSE 0)) * 2 + (IF cfg.redirect THEN 1 ELSE 0)) * 4 + TLSNo(cfg.tls)) * 3 + OrderNo(cfg.order))
+            + (IF cfg.passAll THEN 1 ELSE 0)) * 2 + (IF cfg.redirect THEN 1 ELSE 0)) * 4 + TLSNo(cfg.tls)) * 3 + OrderNo(cfg.order)) * 2
+          + (IF cfg.conf = "readded" THEN 1 ELSE 0)
 
 Export ==
   IF Done
   THEN JsonSerialize("gen/k" \o ToString(CaseNo) \o ".json",
          [id |-> CaseNo, path |-> cfg.path, repo |-> cfg.repo, variant |-> cfg.variant, relative |-> Relative(cfg.variant),
           chart |-> Chart, passAll |-> cfg.passAll, redirect |-> cfg.redirect, target |-> RedirTarget,
-          tls |-> cfg.tls, order |-> cfg.order, public |-> PublicRepo,
+          tls |-> cfg.tls, order |-> cfg.order, conf |-> cfg.conf, public |-> PublicRepo,
           model |-> reqs, modelOK |-> ModelOK, crossOrigin |-> Origin(Chart) # Origin(cfg.repo)])
   ELSE TRUE
 =============================================================================
